@@ -17,6 +17,7 @@ import (
 	"github.com/avfs/avfs/vfs/osfs"
 	"github.com/avfs/avfs/vfs/rofs"
 
+	"verif/internal/fsx"
 	"verif/internal/hook"
 	"verif/internal/rt"
 )
@@ -136,6 +137,7 @@ func c16Run(c *rt.Ctx, srcKind, dstKind, fnName string, size int, mode fs.FileMo
 	var panicked any
 	func() {
 		defer func() { panicked = recover() }()
+		fsx.BeginCall() // a direct call: the lock-site budget of the sequential hook restarts here
 		switch fnName {
 		case "CopyFile":
 			err = avfs.CopyFile(dw, sw, dstPath, srcPath)
